@@ -760,6 +760,25 @@ pub fn run(case: &Case, ctx: &mut Ctx) -> CaseOutcome {
             break;
         }
     }
+    if ctx.stats.samples.len() < 5 && !ctx.stats.samples.iter().any(|s| s.get("syscall_level").is_some()) {
+        ctx.stats.samples.push(serde_json::json!({
+            "syscall_level": kind,
+            "index": case.index,
+            "mode": mode_s,
+            "pre_state": pre,
+            "inputs": inputs,
+            "sources": a.sources.iter().map(|s| s.path.clone()).collect::<Vec<_>>(),
+            "calls_of_the_worker_thread_in_the_recorded_run": worker,
+            "reference_build_exit": ref_code,
+            "points": results.iter().map(|r| format!(
+                "{} -> {} exit {}{}",
+                r.point.spell(),
+                if r.fired { "fired" } else { "not reached" },
+                r.code,
+                if r.repair_codes.is_empty() { String::new() } else { format!(", then {:?}", r.repair_codes) }
+            )).collect::<Vec<_>>(),
+        }));
+    }
     let _ = prop;
     ctx.stats.count(&format!("sys.cases.{kind}"));
     for l in &lanes {
